@@ -109,6 +109,7 @@ func devRun(args []string) {
 		run := RunPlan(p, RunOpts{Health: true, Readback: true, Verbose: *verbose})
 		total.Merge(run.Stats)
 		nviol += len(run.V)
+		fmt.Printf("dbgChanged=%d ", dbgEventDeclChanged)
 		fmt.Printf("seed %d: steps=%d committed=%d predictedFails=%d execs=%d aborted=%d notfired=%d violations=%d\n", s, run.Stats.Steps, run.Stats.Committed, run.Stats.PredictedFails, run.Stats.Execs, run.Stats.AbortedAttempts, run.Stats.NotFired, len(run.V))
 		for i, v := range run.V {
 			if i < 6 {
@@ -116,6 +117,7 @@ func devRun(args []string) {
 			}
 		}
 	}
+	fmt.Printf("DBG calls=%d eventDeclChangedBetweenCalls=%d\n", dbgCalls, dbgEventDeclChanged)
 	fmt.Printf("TOTAL execs=%d steps=%d committed=%d faults=%v probes=%v failkinds=%v states=%d violations=%d\n", total.Execs, total.Steps, total.Committed, total.FaultsFired, total.Probes, total.FailKinds, len(total.ModelStates), nviol)
 }
 
